@@ -224,6 +224,13 @@ def expected_model(spec: dict, outcomes: list) -> list:
             else:
                 a.units = units_str(op['value'])
                 a.units_assigned = True
+        elif kind == 'set_header':
+            if ok:
+                l = lfs[op.get('lf', 0)]
+                if op['field'] == 'header_id':
+                    l.header_id = op['value']
+                elif op['field'] == 'sequence_number':
+                    l.seq = op['value']
         elif kind == 'setattr':
             if not ok or op['target'] not in objs:
                 continue
